@@ -57,7 +57,8 @@ def run(tier, seed, t0):
         m.harness_failures.append("own number parser (from_chars) and strtod disagree on %d generated values" % b["oracle_self_disagreement"])
     if m.maxima.get("catalogue_size") not in (None, CATALOGUE):
         m.harness_failures.append("catalogue size in the harness (%s) differs from checks/C18.py (%d)" % (m.maxima.get("catalogue_size"), CATALOGUE))
-    floors = {"sampling_period_not_a_multiple_of_time_step": (b.get("sampling_period_not_a_multiple_of_time_step", 0), 3)}
+    floors = {"sampling_period_not_a_multiple_of_time_step": (b.get("sampling_period_not_a_multiple_of_time_step", 0), 3),
+              "contact_probes_between_adhesion_and_repulsion_cutoff": (b.get("contact_cutoff_probes_between_the_two_cutoffs", 0), 5)}
     for t in NUM + CELL + FACE:
         floors["read:" + t] = (b.get("read:" + t, 0), n_read)
     for t in NUM + CELL + ["face_types"] + FACE:
